@@ -207,20 +207,40 @@ def run(ctx, rep):
             helpers = [x for x in F.bodies if x.promoted is None and x.kind != "Closure" and x.path.startswith("metadata::update_file::")]
             growers = {strip_generics(x.path) for x in helpers if uses_op(x, "checked_add") and not uses_op(x, "checked_sub")}
             shrinkers = {strip_generics(x.path) for x in helpers if uses_op(x, "checked_sub") and not uses_op(x, "checked_add")}
-            rep.check("C10.dir", "one helper grows padding (checked_add), one shrinks (checked_sub)", len(growers) == 1 and len(shrinkers) == 1 and growers != shrinkers, loc_of(b), "%s / %s" % (growers, shrinkers))
+            def call_dir(t):
+                """grow / shrink: the helper called is the growing / shrinking one, or one helper is told which by a function value"""
+                nm = strip_generics(callee_name(t))
+                if nm in growers:
+                    return "grow"
+                if nm in shrinkers:
+                    return "shrink"
+                if nm == "metadata::BlockSize::checked_add":      # the helper's body, inlined or written in place
+                    return "grow"
+                if nm == "metadata::BlockSize::checked_sub":
+                    return "shrink"
+                if nm.startswith("metadata::update_file::"):
+                    for a in t["a"]:
+                        kf = (a.get("k") or {}).get("fn") if isinstance(a, dict) else None
+                        if kf and re.search(r"BlockSize::checked_add$", kf.get("path") or ""):
+                            return "grow"
+                        if kf and re.search(r"BlockSize::checked_sub$", kf.get("path") or ""):
+                            return "shrink"
+                return None
+            dirs = {call_dir(t) for _, t in b.calls()} - {None}
+            rep.check("C10.dir", "one helper grows padding (checked_add), one shrinks (checked_sub)", (len(growers) == 1 and len(shrinkers) == 1 and growers != shrinkers) or (not growers and not shrinkers and dirs == {"grow", "shrink"}), loc_of(b), "%s / %s / %s" % (growers, shrinkers, sorted(dirs)))
             for val, rel in ((-1, "A<B"), (1, "A>B"), (0, "A==B")):
                 tb = arms.get(val)
                 if tb is None:
                     rep.bad("C10.dir", "Ordering arm %d" % val, loc_of(b), "arm missing")
                     continue
                 region = blocks_only_via(b, swb, tb)
-                calls = [(i, t) for i, t in b.calls() if i in region and strip_generics(callee_name(t)) in growers | shrinkers]
+                calls = [(i, t) for i, t in b.calls() if i in region and call_dir(t) is not None]
                 if val == 0:
                     rep.check("C10.dir", "equal sizes: padding untouched", not calls, loc_of(b), "", "padding is adjusted although the sizes are equal")
                     continue
                 new_smaller = (rel == "A<B" and ka == "new") or (rel == "A>B" and ka == "old")
-                want = growers if new_smaller else shrinkers
-                good = len(calls) == 1 and strip_generics(callee_name(calls[0][1])) in want
+                want = "grow" if new_smaller else "shrink"
+                good = len(calls) == 1 and call_dir(calls[0][1]) == want
                 detail = ""
                 if good:
                     # argument must be (larger - smaller)
@@ -237,6 +257,13 @@ def run(ctx, rep):
                                 for _, si2, d2 in b.defs().get(q["l"], []):
                                     if si2 != "T" and d2["rv"]["r"] == "bin" and d2["rv"]["op"].startswith("Sub"):
                                         src = d2["rv"]
+                    if src is None:
+                        # the difference may reach the padding operation through conversions (try_into()?): the one
+                        # subtraction of the two sizes computed on this arm
+                        subs_ = [st_["rv"] for bj in sorted(region) for st_ in b.blocks[bj]["s"] if st_["rv"]["r"] == "bin" and st_["rv"]["op"].startswith("Sub")
+                                 and {(_root_place(b, st_["rv"]["a"]) or {}).get("l"), (_root_place(b, st_["rv"]["b"]) or {}).get("l")} == {A["l"], B["l"]}]
+                        if len(subs_) == 1 and any(o.startswith("Sub") for o in backward_slice(b, arg)["ops"]):
+                            src = subs_[0]
                     if src is None:
                         good = False
                         detail = "argument is not a difference of the two sizes"
@@ -275,6 +302,21 @@ def run(ctx, rep):
         elif sname.endswith("rebuild_file"):
             nflag += 1
             rep.check("C10.flag", "rebuild reports true", val == 1, loc_of(b, t), "", "a rebuild reports %s" % val)
+    # or the helpers attach the flag themselves (-> Result<bool, Error>) and update_file hands their result on
+    for hname, want in (("write_in_place", 0), ("rebuild_file", 1)):
+        hb = [x for x in F.bodies if x.promoted is None and x.kind != "Closure" and strip_generics(x.path) == "metadata::update_file::" + hname]
+        for x in hb[:1]:
+            if "bool" not in x.locals[0]["ty"]:
+                continue
+            vals = []
+            for _, t in x.calls():
+                if re.search(r"Result::<T, E>::map$", callee_name(t)) and t["cls"]:
+                    cb = F.body(t["cls"][0])
+                    if cb is not None:
+                        vals += [op_int(s_["rv"]["o"]) for bl in cb.blocks for s_ in bl["s"] if s_["d"]["l"] == 0 and s_["rv"]["r"] == "use"]
+            vals += [op_int(s_["rv"]["ops"][0]) for bl in x.blocks for s_ in bl["s"] if s_["rv"]["r"] == "agg" and s_["rv"].get("var") == "Ok" and s_["rv"]["ops"] and op_int(s_["rv"]["ops"][0]) is not None]
+            nflag += 1
+            rep.check("C10.flag", "%s reports %s" % (hname, "true (rebuilt)" if want else "false (not rebuilt)"), vals == [want], loc_of(x), str(vals), "%s reports %s" % (hname, vals))
     rep.floor("C10.flag", "flagged results", nflag, 2)
 
     # ---- C10.copy --------------------------------------------------------------------------------------------
